@@ -331,7 +331,8 @@ class extract_visitor(NodeVisitor):
 
     def visit_Global(self, node):
         # type: (ast.Global) -> None
-        self.flow.scope.globals.update(node.names)
+        if self.flow.scope is not self.top:  # at module level the statement changes nothing
+            self.flow.scope.globals.update(node.names)
 
     def visit_Nonlocal(self, node):
         # type: (ast.Nonlocal) -> None
